@@ -9,6 +9,7 @@
 #include <igris/datastruct/pool.h>
 
 #include <map>
+#include <sys/mman.h>
 #include <set>
 #include <memory>
 
@@ -283,6 +284,46 @@ namespace
                 if (__brkval != nullptr && __brkval != __malloc_heap_start) violate("C10/heap-memory-lost", "after freeing a 140000-byte block the break is %td bytes above the heap start", __brkval - __malloc_heap_start);
                 probe("request_over_65535_bytes");
             }
+            if (p.ops.size() % 16 == 7)
+            {
+                // a request beyond 32 bits: the (now empty) heap is moved for a moment onto a 12 GiB mapping that costs nothing until
+                // it is touched; 5 GiB are requested, the first and last page written, a small neighbour must lie behind the block
+                static char *wide = (char *)mmap(nullptr, (size_t)12 << 30, PROT_READ | PROT_WRITE, MAP_PRIVATE | MAP_ANONYMOUS | MAP_NORESERVE, -1, 0);
+                if (wide != (char *)MAP_FAILED)
+                {
+                    struct Home
+                    {
+                        char *home = __malloc_heap_start;
+                        ~Home()
+                        {
+                            __malloc_heap_start = home;
+                            __brkval = nullptr;
+                            if (&__flp) __flp = nullptr;
+                            if (&__allocation_counter) __allocation_counter = 0;
+                        }
+                    } back_home;
+                    __malloc_heap_start = wide;
+                    __brkval = nullptr;
+                    const size_t n = ((size_t)5 << 30) + 40;
+                    char *big = (char *)lin_malloc(n);
+                    if (!big || big < wide + HDR || big + n > wide + ((size_t)12 << 30)) violate("C10/heap-outside-arena", "malloc(5 GiB + 40) returned a block outside the arena");
+                    for (size_t i = 0; i < 4096; i++) big[i] = (char)pat(78, i), big[n - 1 - i] = (char)pat(79, i);
+                    char *small = (char *)lin_malloc(24);
+                    if (!small || small < wide + HDR || small + 24 > wide + ((size_t)12 << 30)) violate("C10/heap-outside-arena", "malloc(24) next to a 5 GiB block returned a block outside the arena");
+                    if (small + 24 > big - HDR && small - HDR < big + n)
+                        violate("C10/heap-overlap", "a 24-byte block at offset %td lies inside a live block of 5 GiB + 40 bytes at offset %td", small - wide, big - wide);
+                    memset(small, 0x33, 24);
+                    for (size_t i = 0; i < 4096; i++)
+                        if ((uint8_t)big[i] != pat(78, i) || (uint8_t)big[n - 1 - i] != pat(79, i)) violate("C10/heap-content-clobbered", "the content of a block of 5 GiB + 40 bytes changed while it was live");
+                    lin_free(small);
+                    lin_free(big);
+                    bool lost = __brkval != nullptr && __brkval != wide;
+                    ptrdiff_t above = __brkval ? __brkval - wide : 0;
+                    madvise(wide, (size_t)12 << 30, MADV_DONTNEED);
+                    if (lost) violate("C10/heap-memory-lost", "after freeing a block of 5 GiB + 40 bytes the break is %td bytes above the heap start", above);
+                    probe("request_over_4_GiB");
+                }
+            }
             res.nontrivial = reused_gap;
             return res;
         }
@@ -325,7 +366,9 @@ namespace
             int nc = (int)r.range(2, 4);
             int64_t elems = r.range(0, tier == THOROUGH ? 24 : 10); // capacity 0: an empty pool answers null at once
             int64_t elsz = r.pick<int64_t>({8, 8, 12, 16, 20, 24, 40, 64, 100});
-            p.cfg = {nc, elems, elsz, (int64_t)r.below(4)};
+            // cfg[3]: low 2 bits what the zone holds before it is engaged; next 3 bits (half of the runs) where the zone starts inside
+            // the caller's block: a zone is any byte range, e.g. what is left of a buffer behind a header of 1..7 bytes
+            p.cfg = {nc, elems, elsz, (int64_t)(r.below(4) + 4 * (r.chance(1, 2) ? r.below(8) : 0))};
             int n = (int)r.range(4, tier == THOROUGH ? 120 : 50);
             int phase = 0, left = 0;
             for (int i = 0; i < n; i++)
@@ -352,7 +395,11 @@ namespace
             size_t zsize = elems * elsz;
             // exact-size zone: ASan red zones right behind the last cell
             // the zone sits between two other exact-size heap blocks: writes below it are caught like writes above it
-            std::unique_ptr<char[]> zone(new char[zsize]);
+            const size_t zoff = kind == 2 ? 0 : (size_t)mod(p.c(3) >> 2, 8);
+            std::unique_ptr<char[]> zone_block(new char[zoff + zsize]);
+            struct ZoneRef { char *p; char *get() const { return p; } } zone{zone_block.get() + zoff};
+            memset(zone_block.get(), 0x5C, zoff); // the caller's bytes in front of the zone
+            if (zoff) probe("zone_not_word_aligned");
             memset(zone.get(), (int)(mod(p.c(3), 4) == 0 ? 0x00 : mod(p.c(3), 4) == 1 ? 0xFF : 0xA5), zsize);
             pool_head ph;
             igris::pool ip;
@@ -457,6 +504,8 @@ namespace
                             violate("C10/pool-freelist", "%s: cell %zu is %s the free list but %s", when, i, sh.live.count(sh.lo + i * elsz) ? "in" : "not in",
                                     sh.live.count(sh.lo + i * elsz) ? "live" : "not live");
                 if (kind == 2 && (size_t)Obj::live_count != sh.live.size()) violate("C10/object-lifetime", "%d objects alive, %zu created and not destroyed", Obj::live_count, sh.live.size());
+                for (size_t i = 0; i < zoff; i++)
+                    if ((unsigned char)zone_block[i] != 0x5C) violate(std::string("C10/pool-outside-arena@") + name(), "%s: the pool wrote to byte %zu in front of its zone", when, zoff - i);
                 sh.verify_all(name(), when);
             };
             auto do_free = [&](char *b) {
